@@ -101,6 +101,66 @@ def release_bound(ctx, rule='C03.release-bound'):
     return res
 
 
+OLDEST = {'first', 'min', 'min_by', 'min_by_key'}
+NOT_OLDEST = {'last', 'max', 'max_by', 'max_by_key', 'pop', 'last_mut', 'nth', 'nth_back', 'next_back', 'rev'}
+
+
+def release_sites(ctx, rule='C03.release-site'):
+    """every call of the release role, anywhere in the crate: only when a writer begins, inside the registry critical section, with the
+    OLDEST registered reader as the bound"""
+    res = []
+    try:
+        (rel,) = ctx.need('release-role')
+    except AnchorError as e:
+        return [unresolved(rule, str(e))]
+    F = ctx.facts
+    bf = c09.begin_fn(ctx)
+    L = c09.locks_of(ctx)
+    sites = [(fn, bb, t) for fn in F.fns for bb, t, c in calls_to_fn(F, fn, rel)]
+    f = floor(rule, 'calls of the release role', len(sites), 1)
+    if f:
+        res.append(f)
+    for fn, bb, t in sites:
+        owner = fn.owner if fn.kind == 'Closure' and fn.owner is not None else fn
+        if owner is not bf:
+            res.append(bad(rule, '%s | releases pending pages outside transaction begin' % fn.qual,
+                           '%s calls the release role at %s. Pending pages may only be released when a writer begins: the decision must be taken atomically with the reader registry, and the pages '
+                           'freed by a commit must stay pending until the next writer begins so that the previous header\'s tree stays intact (fallback) and no reader that starts during the commit '
+                           'loses its snapshot' % (fn.qual, fn.loc(bb)), where=fn.loc(bb)))
+            continue
+        li = L.info(fn)
+        _, hs, _ = registry_holders(ctx, fn)
+        du = ctx.du(fn)
+        locs, atoms = du.slice_operand(t['args'][1])
+        if not (locs & hs):
+            continue          # bound not read from the registry: judged by release-bound (other branch)
+        names = set()
+        idx_consts = set()
+        for a in atoms:
+            if a[0] != 'call':
+                continue
+            ct = fn.term(a[1])
+            if not ct['args']:
+                continue
+            l0 = op_local(ct['args'][0])
+            if l0 is None or not (du.slice_local(l0)[0] & hs):
+                continue
+            n = last_seg(strip_generics(a[2]))
+            names.add(n)
+            if n == 'index' and len(ct['args']) > 1:
+                from facts import op_const_val
+                idx_consts.add(op_const_val(ct['args'][1]))
+        oldest = bool(names & OLDEST) or (idx_consts == {0})
+        wrong = bool(names & NOT_OLDEST) or bool(idx_consts - {0})
+        if oldest and not wrong:
+            res.append(ok(rule, 'release at %s is bounded by the oldest registered reader (%s)' % (fn.loc(bb), ', '.join(sorted(names & (OLDEST | {'index'})))), sites=1))
+        else:
+            res.append(bad(rule, '%s | release bound is not the oldest reader (%s)' % (fn.qual, ','.join(sorted(names - {'deref', 'deref_mut'}))),
+                           'the release at %s takes its bound from the reader registry with `%s`, which is not the first / minimum element of the ascending registry: pages still needed by an '
+                           'older open reader are released and reused' % (fn.loc(bb), ', '.join(sorted(names - {'deref', 'deref_mut'}))), where=fn.loc(bb)))
+    return res
+
+
 def register(ctx, rule='C03.register'):
     res = []
     bf = c09.begin_fn(ctx)
@@ -345,6 +405,7 @@ def private_map(ctx, rule='C03.private-map'):
 def run(ctx, tier):
     results = []
     results += release_bound(ctx)
+    results += release_sites(ctx)
     results += register(ctx)
     results += sorted_registry(ctx)
     results += deregister_only_own(ctx)
@@ -357,8 +418,8 @@ def run(ctx, tier):
     return dict(
         results=results, stats=dict(ctx.stats),
         explanation=(
-            'Decides the bookkeeping clauses that pin a reader\'s snapshot, for all histories: (release-bound) the writer\'s release bound is read from (or tested against) the '
-            'open-reader registry, inside the registry critical section; (register) every successful read-only begin inserts exactly the tx_id of the Meta it keeps, writers '
+            'Decides the bookkeeping clauses that pin a reader\'s snapshot, for all histories: (release-bound, release-site) pending pages are released only when a writer begins, with a bound read from (or tested against) the '
+            'open-reader registry inside its critical section, and that bound is the OLDEST registered reader; (register) every successful read-only begin inserts exactly the tx_id of the Meta it keeps, writers '
             'never register; (sorted-registry) the registry is mutated only by order-preserving single-element operations and every push is followed by a sort; '
             '(deregister-only-own) Drop removes, for read-only transactions only, the one entry found by searching for its own id; (private-map) every transaction owns an '
             'Arc of an immutable map cloned under the map lock and no pointer into the map is ever made mutable; plus the free-set discipline shared with C02. NOT decided: '
